@@ -24,6 +24,16 @@ def Filter.matchPathC (fix : Bool) (f : Filter) (path : Str) (isDir : Bool) : Re
            else goOld f.keys (f.ev inOrigin path isDir) (p.length + 1) (body p)
   r.getD .none
 
+/-- `match_path` as it is in /repo now (F12 repaired) -/
+def Filter.matchFix (f : Filter) (path : Str) (isDir : Bool) : Res := f.matchPathC true path isDir
+
+/-- `check_dir` on the repaired `match_path`: true = not ignored -/
+def Filter.checkDirFix (f : Filter) (path : Str) : Bool :=
+  match f.matchFix path true with
+  | .none => true
+  | .ignore _ fr => !(compPrefix fr path)
+  | .whitelist _ _ => true
+
 /-- and the specification through `spec` -/
 def Filter.specMatchC (f : Filter) (path : Str) (isDir : Bool) : Res :=
   (spec f.keys (f.ev (compPrefix f.origin path) path isDir) (splitComps path)).getD .none
